@@ -9,11 +9,14 @@
 // contracts (primitives.rs), the typenum arithmetic (ExpandedKeyTableSize, KeyAsWordsSize, BlockSize) is checked
 // per instantiation by the size assertions in the k_* harnesses.
 //
+// The right-hand sides are the native-word instances bcref::rc5::{w8, w16, w32, w64, w128} of the reference (the same
+// text as the width-parametric reference, tied to it by bcref's tests and, operation by operation, by primitives.rs).
+//
 // Per instantiation <p>:
 //   <p>_ks   substitute_key (key_into_words + initialize_expanded_key_table + mix_in) == key expansion 4.3, every key
 //   <p>_enc  encrypt_block == 4.1 for EVERY expanded-key table and block;  <p>_dec  decrypt_block == 4.2
-//   <p>_rt   C01: dec(enc(x)) == x and enc(dec(x)) == x for EVERY expanded-key table
-//   <p>_api  KeyInit::new + encrypt_block + decrypt_block == RC5-w/r/b on bytes, every key and block (no stubs)
+//   <p>_rt1  C01: dec(enc(x)) == x for EVERY expanded-key table;  <p>_rt2  enc(dec(x)) == x
+//   <p>_api_enc / <p>_api_dec  KeyInit::new + encrypt_block / decrypt_block == RC5-w/r/b on bytes, every key and block (no stubs)
 //
 // @module file=rc5/src/lib.rs
 // @config name=zeroize features=zeroize
@@ -23,11 +26,10 @@ use bcref::rc5 as r;
 use cipher::consts::*;
 include!("@VERIF@/contracts/_common/common.rs");
 
-fn eq_bytes(a: &[u8], b: &[u8]) -> bool {
-    if a.len() != b.len() { return false; }
+fn eq_n<const N: usize>(a: &[u8; N], b: &[u8; N]) -> bool {
     let mut ok = true;
     let mut i = 0;
-    while i < a.len() {
+    while i < N {
         ok &= a[i] == b[i];
         i += 1;
     }
@@ -57,32 +59,21 @@ macro_rules! any_rc5 {
         RC5::<$W, $R, $B> { key_table: Array(kani::any::<[$W; $t]>()), _key_size: PhantomData }
     };
 }
-macro_rules! table128 {
-    ($c:expr, $t:expr) => {{
-        let mut s = [0u128; $t];
-        let mut i = 0;
-        while i < $t {
-            s[i] = $c.key_table.0[i].w128();
-            i += 1;
-        }
-        s
-    }};
-}
 
-// w = word bits, u = word bytes, t = 2(r+1), c = max(1, ceil(b/u)), b = key bytes, unw > 3 max(t, c), 2u, b
+// m = native reference instance, u = word bytes, t = 2(r+1), c = max(1, ceil(b/u)), b = key bytes, unw > 3 max(t, c), 2u, b
 macro_rules! rc5_inst {
-    ($W:ty, $R:ty, $B:ty, w=$w:expr, u=$u:expr, t=$t:expr, c=$c:expr, b=$b:expr, unw=$unw:expr;
-     $ks:ident, $enc:ident, $dec:ident, $rt:ident, $api:ident) => {
+    ($W:ty, $R:ty, $B:ty, m=$m:ident, u=$u:expr, t=$t:expr, c=$c:expr, b=$b:expr, unw=$unw:expr;
+     $ks:ident, $enc:ident, $dec:ident, $rt1:ident, $rt2:ident, $apie:ident, $apid:ident) => {
         #[kani::proof]
         #[kani::unwind($unw)]
         fn $ks() {
             let key: [u8; $b] = kani::any();
             let real = RC5::<$W, $R, $B>::substitute_key(&Array(key));
-            let spec = r::key_expansion::<$t, $c>($w, &key);
+            let spec = r::$m::key_expansion::<$t, $c>(&key);
             assert!(real.0.len() == $t);
             let mut i = 0;
             while i < $t {
-                assert!(real.0[i].w128() == spec[i]);
+                assert!(real.0[i] == spec[i]);
                 i += 1;
             }
         }
@@ -90,53 +81,65 @@ macro_rules! rc5_inst {
         #[kani::unwind($unw)]
         fn $enc() {
             let c = any_rc5!($W, $R, $B, $t);
-            let s = table128!(c, $t);
             let b: [u8; 2 * $u] = kani::any();
             let mut blk = Array(b);
             cipher::BlockCipherEncrypt::encrypt_block(&c, &mut blk);
-            let (x, y) = r::encrypt_words::<$t>($w, &s, r::word_from_le($w, &b[..$u]), r::word_from_le($w, &b[$u..]));
-            assert!(r::word_from_le($w, &blk.0[..$u]) == x && r::word_from_le($w, &blk.0[$u..]) == y);
+            let (x, y) = r::$m::encrypt_words::<$t>(&c.key_table.0, r::$m::word_from_le(&b[..$u]), r::$m::word_from_le(&b[$u..]));
+            assert!(r::$m::word_from_le(&blk.0[..$u]) == x && r::$m::word_from_le(&blk.0[$u..]) == y);
         }
         #[kani::proof]
         #[kani::unwind($unw)]
         fn $dec() {
             let c = any_rc5!($W, $R, $B, $t);
-            let s = table128!(c, $t);
             let b: [u8; 2 * $u] = kani::any();
             let mut blk = Array(b);
             cipher::BlockCipherDecrypt::decrypt_block(&c, &mut blk);
-            let (x, y) = r::decrypt_words::<$t>($w, &s, r::word_from_le($w, &b[..$u]), r::word_from_le($w, &b[$u..]));
-            assert!(r::word_from_le($w, &blk.0[..$u]) == x && r::word_from_le($w, &blk.0[$u..]) == y);
+            let (x, y) = r::$m::decrypt_words::<$t>(&c.key_table.0, r::$m::word_from_le(&b[..$u]), r::$m::word_from_le(&b[$u..]));
+            assert!(r::$m::word_from_le(&blk.0[..$u]) == x && r::$m::word_from_le(&blk.0[$u..]) == y);
         }
         #[kani::proof]
         #[kani::unwind($unw)]
-        fn $rt() {
+        fn $rt1() {
             let c = any_rc5!($W, $R, $B, $t);
             let b: [u8; 2 * $u] = kani::any();
             let mut blk = Array(b);
             cipher::BlockCipherEncrypt::encrypt_block(&c, &mut blk);
             cipher::BlockCipherDecrypt::decrypt_block(&c, &mut blk);
-            assert!(eq_bytes(&blk.0, &b));
-            cipher::BlockCipherDecrypt::decrypt_block(&c, &mut blk);
-            cipher::BlockCipherEncrypt::encrypt_block(&c, &mut blk);
-            assert!(eq_bytes(&blk.0, &b));
+            assert!(eq_n(&blk.0, &b));
         }
         #[kani::proof]
         #[kani::unwind($unw)]
-        fn $api() {
+        fn $rt2() {
+            let c = any_rc5!($W, $R, $B, $t);
+            let b: [u8; 2 * $u] = kani::any();
+            let mut blk = Array(b);
+            cipher::BlockCipherDecrypt::decrypt_block(&c, &mut blk);
+            cipher::BlockCipherEncrypt::encrypt_block(&c, &mut blk);
+            assert!(eq_n(&blk.0, &b));
+        }
+        #[kani::proof]
+        #[kani::unwind($unw)]
+        fn $apie() {
             let key: [u8; $b] = kani::any();
             let b: [u8; 2 * $u] = kani::any();
             let c = <RC5<$W, $R, $B> as KeyInit>::new(&Array(key));
             let mut blk = Array(b);
             cipher::BlockCipherEncrypt::encrypt_block(&c, &mut blk);
-            let mut e = b;
-            r::encrypt::<$t, $c>($w, &key, &mut e);
-            assert!(eq_bytes(&blk.0, &e));
+            let s = r::$m::key_expansion::<$t, $c>(&key);
+            let (x, y) = r::$m::encrypt_words::<$t>(&s, r::$m::word_from_le(&b[..$u]), r::$m::word_from_le(&b[$u..]));
+            assert!(r::$m::word_from_le(&blk.0[..$u]) == x && r::$m::word_from_le(&blk.0[$u..]) == y);
+        }
+        #[kani::proof]
+        #[kani::unwind($unw)]
+        fn $apid() {
+            let key: [u8; $b] = kani::any();
+            let b: [u8; 2 * $u] = kani::any();
+            let c = <RC5<$W, $R, $B> as KeyInit>::new(&Array(key));
             let mut blk = Array(b);
             cipher::BlockCipherDecrypt::decrypt_block(&c, &mut blk);
-            let mut d = b;
-            r::decrypt::<$t, $c>($w, &key, &mut d);
-            assert!(eq_bytes(&blk.0, &d));
+            let s = r::$m::key_expansion::<$t, $c>(&key);
+            let (x, y) = r::$m::decrypt_words::<$t>(&s, r::$m::word_from_le(&b[..$u]), r::$m::word_from_le(&b[$u..]));
+            assert!(r::$m::word_from_le(&blk.0[..$u]) == x && r::$m::word_from_le(&blk.0[$u..]) == y);
         }
     };
 }
@@ -146,118 +149,169 @@ macro_rules! rc5_inst {
 // @ob name=t8_12_4_ks props=C10,C20 kind=contract fn=rc5::RC5::substitute_key,rc5::RC5::key_into_words,rc5::RC5::initialize_expanded_key_table,rc5::RC5::mix_in timeout=300 note="RC5-8/12/4"
 // @ob name=t8_12_4_enc props=C10,C20 kind=contract fn=rc5::RC5::encrypt_block,rc5::RC5::words_from_block,rc5::RC5::block_from_words timeout=300 note="RC5-8/12/4"
 // @ob name=t8_12_4_dec props=C10,C20 kind=contract fn=rc5::RC5::decrypt_block,rc5::RC5::words_from_block,rc5::RC5::block_from_words timeout=300 note="RC5-8/12/4"
-// @ob name=t8_12_4_rt props=C01 kind=contract fn=rc5::RC5::encrypt_block,rc5::RC5::decrypt_block timeout=300 note="RC5-8/12/4"
-// @ob name=t8_12_4_api props=C10,C20 kind=contract fn=rc5::RC5::new,rc5::RC5::encrypt_block,rc5::RC5::decrypt_block timeout=600 note="RC5-8/12/4"
-rc5_inst!(u8, U12, U4, w=8, u=1, t=26, c=4, b=4, unw=80; t8_12_4_ks, t8_12_4_enc, t8_12_4_dec, t8_12_4_rt, t8_12_4_api);
+// @ob name=t8_12_4_rt1 props=C01 kind=contract fn=rc5::RC5::encrypt_block,rc5::RC5::decrypt_block timeout=300 note="RC5-8/12/4"
+// @ob name=t8_12_4_rt2 props=C01 kind=contract fn=rc5::RC5::encrypt_block,rc5::RC5::decrypt_block timeout=300 note="RC5-8/12/4"
+// @ob name=t8_12_4_api_enc props=C10,C20 kind=contract fn=rc5::RC5::new,rc5::RC5::encrypt_block timeout=300 note="RC5-8/12/4"
+// @ob name=t8_12_4_api_dec props=C10,C20 kind=contract fn=rc5::RC5::new,rc5::RC5::decrypt_block timeout=300 note="RC5-8/12/4"
+rc5_inst!(u8, U12, U4, m=w8, u=1, t=26, c=4, b=4, unw=80;
+    t8_12_4_ks, t8_12_4_enc, t8_12_4_dec, t8_12_4_rt1, t8_12_4_rt2, t8_12_4_api_enc, t8_12_4_api_dec);
 // RC5-16/16/8: RC5<u16, U16, U8>  (t = 34, c = 4)
 // @ob name=t16_16_8_ks props=C10,C20 kind=contract fn=rc5::RC5::substitute_key,rc5::RC5::key_into_words,rc5::RC5::initialize_expanded_key_table,rc5::RC5::mix_in timeout=300 note="RC5-16/16/8"
 // @ob name=t16_16_8_enc props=C10,C20 kind=contract fn=rc5::RC5::encrypt_block,rc5::RC5::words_from_block,rc5::RC5::block_from_words timeout=300 note="RC5-16/16/8"
 // @ob name=t16_16_8_dec props=C10,C20 kind=contract fn=rc5::RC5::decrypt_block,rc5::RC5::words_from_block,rc5::RC5::block_from_words timeout=300 note="RC5-16/16/8"
-// @ob name=t16_16_8_rt props=C01 kind=contract fn=rc5::RC5::encrypt_block,rc5::RC5::decrypt_block timeout=300 note="RC5-16/16/8"
-// @ob name=t16_16_8_api props=C10,C20 kind=contract fn=rc5::RC5::new,rc5::RC5::encrypt_block,rc5::RC5::decrypt_block timeout=600 note="RC5-16/16/8"
-rc5_inst!(u16, U16, U8, w=16, u=2, t=34, c=4, b=8, unw=104; t16_16_8_ks, t16_16_8_enc, t16_16_8_dec, t16_16_8_rt, t16_16_8_api);
+// @ob name=t16_16_8_rt1 props=C01 kind=contract fn=rc5::RC5::encrypt_block,rc5::RC5::decrypt_block timeout=300 note="RC5-16/16/8"
+// @ob name=t16_16_8_rt2 props=C01 kind=contract fn=rc5::RC5::encrypt_block,rc5::RC5::decrypt_block timeout=300 note="RC5-16/16/8"
+// @ob name=t16_16_8_api_enc props=C10,C20 kind=contract fn=rc5::RC5::new,rc5::RC5::encrypt_block timeout=300 note="RC5-16/16/8"
+// @ob name=t16_16_8_api_dec props=C10,C20 kind=contract fn=rc5::RC5::new,rc5::RC5::decrypt_block timeout=300 note="RC5-16/16/8"
+rc5_inst!(u16, U16, U8, m=w16, u=2, t=34, c=4, b=8, unw=104;
+    t16_16_8_ks, t16_16_8_enc, t16_16_8_dec, t16_16_8_rt1, t16_16_8_rt2, t16_16_8_api_enc, t16_16_8_api_dec);
 // RC5-32/12/16: RC5<u32, U12, U16>  (t = 26, c = 4)
 // @ob name=t32_12_16_ks props=C10,C20 kind=contract fn=rc5::RC5::substitute_key,rc5::RC5::key_into_words,rc5::RC5::initialize_expanded_key_table,rc5::RC5::mix_in timeout=300 note="RC5-32/12/16"
 // @ob name=t32_12_16_enc props=C10,C20 kind=contract fn=rc5::RC5::encrypt_block,rc5::RC5::words_from_block,rc5::RC5::block_from_words timeout=300 note="RC5-32/12/16"
 // @ob name=t32_12_16_dec props=C10,C20 kind=contract fn=rc5::RC5::decrypt_block,rc5::RC5::words_from_block,rc5::RC5::block_from_words timeout=300 note="RC5-32/12/16"
-// @ob name=t32_12_16_rt props=C01 kind=contract fn=rc5::RC5::encrypt_block,rc5::RC5::decrypt_block timeout=300 note="RC5-32/12/16"
-// @ob name=t32_12_16_api props=C10,C20 kind=contract fn=rc5::RC5::new,rc5::RC5::encrypt_block,rc5::RC5::decrypt_block timeout=600 note="RC5-32/12/16"
-rc5_inst!(u32, U12, U16, w=32, u=4, t=26, c=4, b=16, unw=80; t32_12_16_ks, t32_12_16_enc, t32_12_16_dec, t32_12_16_rt, t32_12_16_api);
+// @ob name=t32_12_16_rt1 props=C01 kind=contract fn=rc5::RC5::encrypt_block,rc5::RC5::decrypt_block timeout=300 note="RC5-32/12/16"
+// @ob name=t32_12_16_rt2 props=C01 kind=contract fn=rc5::RC5::encrypt_block,rc5::RC5::decrypt_block timeout=300 note="RC5-32/12/16"
+// @ob name=t32_12_16_api_enc props=C10,C20 kind=contract fn=rc5::RC5::new,rc5::RC5::encrypt_block timeout=300 note="RC5-32/12/16"
+// @ob name=t32_12_16_api_dec props=C10,C20 kind=contract fn=rc5::RC5::new,rc5::RC5::decrypt_block timeout=300 note="RC5-32/12/16"
+rc5_inst!(u32, U12, U16, m=w32, u=4, t=26, c=4, b=16, unw=80;
+    t32_12_16_ks, t32_12_16_enc, t32_12_16_dec, t32_12_16_rt1, t32_12_16_rt2, t32_12_16_api_enc, t32_12_16_api_dec);
 // RC5-32/16/16: RC5<u32, U16, U16>  (t = 34, c = 4)
 // @ob name=t32_16_16_ks props=C10,C20 kind=contract fn=rc5::RC5::substitute_key,rc5::RC5::key_into_words,rc5::RC5::initialize_expanded_key_table,rc5::RC5::mix_in timeout=300 note="RC5-32/16/16"
 // @ob name=t32_16_16_enc props=C10,C20 kind=contract fn=rc5::RC5::encrypt_block,rc5::RC5::words_from_block,rc5::RC5::block_from_words timeout=300 note="RC5-32/16/16"
 // @ob name=t32_16_16_dec props=C10,C20 kind=contract fn=rc5::RC5::decrypt_block,rc5::RC5::words_from_block,rc5::RC5::block_from_words timeout=300 note="RC5-32/16/16"
-// @ob name=t32_16_16_rt props=C01 kind=contract fn=rc5::RC5::encrypt_block,rc5::RC5::decrypt_block timeout=300 note="RC5-32/16/16"
-// @ob name=t32_16_16_api props=C10,C20 kind=contract fn=rc5::RC5::new,rc5::RC5::encrypt_block,rc5::RC5::decrypt_block timeout=600 note="RC5-32/16/16"
-rc5_inst!(u32, U16, U16, w=32, u=4, t=34, c=4, b=16, unw=104; t32_16_16_ks, t32_16_16_enc, t32_16_16_dec, t32_16_16_rt, t32_16_16_api);
+// @ob name=t32_16_16_rt1 props=C01 kind=contract fn=rc5::RC5::encrypt_block,rc5::RC5::decrypt_block timeout=300 note="RC5-32/16/16"
+// @ob name=t32_16_16_rt2 props=C01 kind=contract fn=rc5::RC5::encrypt_block,rc5::RC5::decrypt_block timeout=300 note="RC5-32/16/16"
+// @ob name=t32_16_16_api_enc props=C10,C20 kind=contract fn=rc5::RC5::new,rc5::RC5::encrypt_block timeout=300 note="RC5-32/16/16"
+// @ob name=t32_16_16_api_dec props=C10,C20 kind=contract fn=rc5::RC5::new,rc5::RC5::decrypt_block timeout=300 note="RC5-32/16/16"
+rc5_inst!(u32, U16, U16, m=w32, u=4, t=34, c=4, b=16, unw=104;
+    t32_16_16_ks, t32_16_16_enc, t32_16_16_dec, t32_16_16_rt1, t32_16_16_rt2, t32_16_16_api_enc, t32_16_16_api_dec);
 // RC5-64/24/24: RC5<u64, U24, U24>  (t = 50, c = 3)
 // @ob name=t64_24_24_ks props=C10,C20 kind=contract fn=rc5::RC5::substitute_key,rc5::RC5::key_into_words,rc5::RC5::initialize_expanded_key_table,rc5::RC5::mix_in timeout=300 note="RC5-64/24/24"
 // @ob name=t64_24_24_enc props=C10,C20 kind=contract fn=rc5::RC5::encrypt_block,rc5::RC5::words_from_block,rc5::RC5::block_from_words timeout=300 note="RC5-64/24/24"
 // @ob name=t64_24_24_dec props=C10,C20 kind=contract fn=rc5::RC5::decrypt_block,rc5::RC5::words_from_block,rc5::RC5::block_from_words timeout=300 note="RC5-64/24/24"
-// @ob name=t64_24_24_rt props=C01 kind=contract fn=rc5::RC5::encrypt_block,rc5::RC5::decrypt_block timeout=300 note="RC5-64/24/24"
-// @ob name=t64_24_24_api props=C10,C20 kind=contract fn=rc5::RC5::new,rc5::RC5::encrypt_block,rc5::RC5::decrypt_block timeout=600 note="RC5-64/24/24"
-rc5_inst!(u64, U24, U24, w=64, u=8, t=50, c=3, b=24, unw=152; t64_24_24_ks, t64_24_24_enc, t64_24_24_dec, t64_24_24_rt, t64_24_24_api);
+// @ob name=t64_24_24_rt1 props=C01 kind=contract fn=rc5::RC5::encrypt_block,rc5::RC5::decrypt_block timeout=300 note="RC5-64/24/24"
+// @ob name=t64_24_24_rt2 props=C01 kind=contract fn=rc5::RC5::encrypt_block,rc5::RC5::decrypt_block timeout=300 note="RC5-64/24/24"
+// @ob name=t64_24_24_api_enc props=C10,C20 kind=contract fn=rc5::RC5::new,rc5::RC5::encrypt_block timeout=300 note="RC5-64/24/24"
+// @ob name=t64_24_24_api_dec props=C10,C20 kind=contract fn=rc5::RC5::new,rc5::RC5::decrypt_block timeout=300 note="RC5-64/24/24"
+rc5_inst!(u64, U24, U24, m=w64, u=8, t=50, c=3, b=24, unw=152;
+    t64_24_24_ks, t64_24_24_enc, t64_24_24_dec, t64_24_24_rt1, t64_24_24_rt2, t64_24_24_api_enc, t64_24_24_api_dec);
 // RC5-128/28/32: RC5<u128, U28, U32>  (t = 58, c = 2)
 // @ob name=t128_28_32_ks props=C10,C20 kind=contract fn=rc5::RC5::substitute_key,rc5::RC5::key_into_words,rc5::RC5::initialize_expanded_key_table,rc5::RC5::mix_in timeout=300 note="RC5-128/28/32"
 // @ob name=t128_28_32_enc props=C10,C20 kind=contract fn=rc5::RC5::encrypt_block,rc5::RC5::words_from_block,rc5::RC5::block_from_words timeout=300 note="RC5-128/28/32"
 // @ob name=t128_28_32_dec props=C10,C20 kind=contract fn=rc5::RC5::decrypt_block,rc5::RC5::words_from_block,rc5::RC5::block_from_words timeout=300 note="RC5-128/28/32"
-// @ob name=t128_28_32_rt props=C01 kind=contract fn=rc5::RC5::encrypt_block,rc5::RC5::decrypt_block timeout=300 note="RC5-128/28/32"
-// @ob name=t128_28_32_api props=C10,C20 kind=contract fn=rc5::RC5::new,rc5::RC5::encrypt_block,rc5::RC5::decrypt_block timeout=600 note="RC5-128/28/32"
-rc5_inst!(u128, U28, U32, w=128, u=16, t=58, c=2, b=32, unw=176; t128_28_32_ks, t128_28_32_enc, t128_28_32_dec, t128_28_32_rt, t128_28_32_api);
+// @ob name=t128_28_32_rt1 props=C01 kind=contract fn=rc5::RC5::encrypt_block,rc5::RC5::decrypt_block timeout=300 note="RC5-128/28/32"
+// @ob name=t128_28_32_rt2 props=C01 kind=contract fn=rc5::RC5::encrypt_block,rc5::RC5::decrypt_block timeout=300 note="RC5-128/28/32"
+// @ob name=t128_28_32_api_enc props=C10,C20 kind=contract fn=rc5::RC5::new,rc5::RC5::encrypt_block timeout=300 note="RC5-128/28/32"
+// @ob name=t128_28_32_api_dec props=C10,C20 kind=contract fn=rc5::RC5::new,rc5::RC5::decrypt_block timeout=300 note="RC5-128/28/32"
+rc5_inst!(u128, U28, U32, m=w128, u=16, t=58, c=2, b=32, unw=176;
+    t128_28_32_ks, t128_28_32_enc, t128_28_32_dec, t128_28_32_rt1, t128_28_32_rt2, t128_28_32_api_enc, t128_28_32_api_dec);
 // RC5-32/0/16: RC5<u32, U0, U16>  (t = 2, c = 4)
 // @ob name=r0_32_0_16_ks props=C10,C20 kind=contract fn=rc5::RC5::substitute_key,rc5::RC5::key_into_words,rc5::RC5::initialize_expanded_key_table,rc5::RC5::mix_in timeout=300 note="RC5-32/0/16"
 // @ob name=r0_32_0_16_enc props=C10,C20 kind=contract fn=rc5::RC5::encrypt_block,rc5::RC5::words_from_block,rc5::RC5::block_from_words timeout=300 note="RC5-32/0/16"
 // @ob name=r0_32_0_16_dec props=C10,C20 kind=contract fn=rc5::RC5::decrypt_block,rc5::RC5::words_from_block,rc5::RC5::block_from_words timeout=300 note="RC5-32/0/16"
-// @ob name=r0_32_0_16_rt props=C01 kind=contract fn=rc5::RC5::encrypt_block,rc5::RC5::decrypt_block timeout=300 note="RC5-32/0/16"
-// @ob name=r0_32_0_16_api props=C10,C20 kind=contract fn=rc5::RC5::new,rc5::RC5::encrypt_block,rc5::RC5::decrypt_block timeout=600 note="RC5-32/0/16"
-rc5_inst!(u32, U0, U16, w=32, u=4, t=2, c=4, b=16, unw=18; r0_32_0_16_ks, r0_32_0_16_enc, r0_32_0_16_dec, r0_32_0_16_rt, r0_32_0_16_api);
+// @ob name=r0_32_0_16_rt1 props=C01 kind=contract fn=rc5::RC5::encrypt_block,rc5::RC5::decrypt_block timeout=300 note="RC5-32/0/16"
+// @ob name=r0_32_0_16_rt2 props=C01 kind=contract fn=rc5::RC5::encrypt_block,rc5::RC5::decrypt_block timeout=300 note="RC5-32/0/16"
+// @ob name=r0_32_0_16_api_enc props=C10,C20 kind=contract fn=rc5::RC5::new,rc5::RC5::encrypt_block timeout=300 note="RC5-32/0/16"
+// @ob name=r0_32_0_16_api_dec props=C10,C20 kind=contract fn=rc5::RC5::new,rc5::RC5::decrypt_block timeout=300 note="RC5-32/0/16"
+rc5_inst!(u32, U0, U16, m=w32, u=4, t=2, c=4, b=16, unw=18;
+    r0_32_0_16_ks, r0_32_0_16_enc, r0_32_0_16_dec, r0_32_0_16_rt1, r0_32_0_16_rt2, r0_32_0_16_api_enc, r0_32_0_16_api_dec);
 // RC5-32/1/16: RC5<u32, U1, U16>  (t = 4, c = 4)
 // @ob name=r1_32_1_16_ks props=C10,C20 kind=contract fn=rc5::RC5::substitute_key,rc5::RC5::key_into_words,rc5::RC5::initialize_expanded_key_table,rc5::RC5::mix_in timeout=300 note="RC5-32/1/16"
 // @ob name=r1_32_1_16_enc props=C10,C20 kind=contract fn=rc5::RC5::encrypt_block,rc5::RC5::words_from_block,rc5::RC5::block_from_words timeout=300 note="RC5-32/1/16"
 // @ob name=r1_32_1_16_dec props=C10,C20 kind=contract fn=rc5::RC5::decrypt_block,rc5::RC5::words_from_block,rc5::RC5::block_from_words timeout=300 note="RC5-32/1/16"
-// @ob name=r1_32_1_16_rt props=C01 kind=contract fn=rc5::RC5::encrypt_block,rc5::RC5::decrypt_block timeout=300 note="RC5-32/1/16"
-// @ob name=r1_32_1_16_api props=C10,C20 kind=contract fn=rc5::RC5::new,rc5::RC5::encrypt_block,rc5::RC5::decrypt_block timeout=600 note="RC5-32/1/16"
-rc5_inst!(u32, U1, U16, w=32, u=4, t=4, c=4, b=16, unw=18; r1_32_1_16_ks, r1_32_1_16_enc, r1_32_1_16_dec, r1_32_1_16_rt, r1_32_1_16_api);
+// @ob name=r1_32_1_16_rt1 props=C01 kind=contract fn=rc5::RC5::encrypt_block,rc5::RC5::decrypt_block timeout=300 note="RC5-32/1/16"
+// @ob name=r1_32_1_16_rt2 props=C01 kind=contract fn=rc5::RC5::encrypt_block,rc5::RC5::decrypt_block timeout=300 note="RC5-32/1/16"
+// @ob name=r1_32_1_16_api_enc props=C10,C20 kind=contract fn=rc5::RC5::new,rc5::RC5::encrypt_block timeout=300 note="RC5-32/1/16"
+// @ob name=r1_32_1_16_api_dec props=C10,C20 kind=contract fn=rc5::RC5::new,rc5::RC5::decrypt_block timeout=300 note="RC5-32/1/16"
+rc5_inst!(u32, U1, U16, m=w32, u=4, t=4, c=4, b=16, unw=18;
+    r1_32_1_16_ks, r1_32_1_16_enc, r1_32_1_16_dec, r1_32_1_16_rt1, r1_32_1_16_rt2, r1_32_1_16_api_enc, r1_32_1_16_api_dec);
 // RC5-32/255/16: RC5<u32, U255, U16>  (t = 512, c = 4)
 // @ob name=r255_32_255_16_ks props=C10,C20 kind=contract fn=rc5::RC5::substitute_key,rc5::RC5::key_into_words,rc5::RC5::initialize_expanded_key_table,rc5::RC5::mix_in timeout=300 note="RC5-32/255/16"
 // @ob name=r255_32_255_16_enc props=C10,C20 kind=contract fn=rc5::RC5::encrypt_block,rc5::RC5::words_from_block,rc5::RC5::block_from_words timeout=300 note="RC5-32/255/16"
 // @ob name=r255_32_255_16_dec props=C10,C20 kind=contract fn=rc5::RC5::decrypt_block,rc5::RC5::words_from_block,rc5::RC5::block_from_words timeout=300 note="RC5-32/255/16"
-// @ob name=r255_32_255_16_rt props=C01 kind=contract fn=rc5::RC5::encrypt_block,rc5::RC5::decrypt_block timeout=300 note="RC5-32/255/16"
-// @ob name=r255_32_255_16_api props=C10,C20 kind=contract fn=rc5::RC5::new,rc5::RC5::encrypt_block,rc5::RC5::decrypt_block timeout=600 note="RC5-32/255/16"
-rc5_inst!(u32, U255, U16, w=32, u=4, t=512, c=4, b=16, unw=1538; r255_32_255_16_ks, r255_32_255_16_enc, r255_32_255_16_dec, r255_32_255_16_rt, r255_32_255_16_api);
+// @ob name=r255_32_255_16_rt1 props=C01 kind=contract fn=rc5::RC5::encrypt_block,rc5::RC5::decrypt_block timeout=300 note="RC5-32/255/16"
+// @ob name=r255_32_255_16_rt2 props=C01 kind=contract fn=rc5::RC5::encrypt_block,rc5::RC5::decrypt_block timeout=300 note="RC5-32/255/16"
+// @ob name=r255_32_255_16_api_enc props=C10,C20 kind=contract fn=rc5::RC5::new,rc5::RC5::encrypt_block timeout=300 note="RC5-32/255/16"
+// @ob name=r255_32_255_16_api_dec props=C10,C20 kind=contract fn=rc5::RC5::new,rc5::RC5::decrypt_block timeout=300 note="RC5-32/255/16"
+rc5_inst!(u32, U255, U16, m=w32, u=4, t=512, c=4, b=16, unw=1538;
+    r255_32_255_16_ks, r255_32_255_16_enc, r255_32_255_16_dec, r255_32_255_16_rt1, r255_32_255_16_rt2, r255_32_255_16_api_enc, r255_32_255_16_api_dec);
 // RC5-32/12/1: RC5<u32, U12, U1>  (t = 26, c = 1)
 // @ob name=b1_32_12_1_ks props=C10,C20 kind=contract fn=rc5::RC5::substitute_key,rc5::RC5::key_into_words,rc5::RC5::initialize_expanded_key_table,rc5::RC5::mix_in timeout=300 note="RC5-32/12/1"
 // @ob name=b1_32_12_1_enc props=C10,C20 kind=contract fn=rc5::RC5::encrypt_block,rc5::RC5::words_from_block,rc5::RC5::block_from_words timeout=300 note="RC5-32/12/1"
 // @ob name=b1_32_12_1_dec props=C10,C20 kind=contract fn=rc5::RC5::decrypt_block,rc5::RC5::words_from_block,rc5::RC5::block_from_words timeout=300 note="RC5-32/12/1"
-// @ob name=b1_32_12_1_rt props=C01 kind=contract fn=rc5::RC5::encrypt_block,rc5::RC5::decrypt_block timeout=300 note="RC5-32/12/1"
-// @ob name=b1_32_12_1_api props=C10,C20 kind=contract fn=rc5::RC5::new,rc5::RC5::encrypt_block,rc5::RC5::decrypt_block timeout=600 note="RC5-32/12/1"
-rc5_inst!(u32, U12, U1, w=32, u=4, t=26, c=1, b=1, unw=80; b1_32_12_1_ks, b1_32_12_1_enc, b1_32_12_1_dec, b1_32_12_1_rt, b1_32_12_1_api);
+// @ob name=b1_32_12_1_rt1 props=C01 kind=contract fn=rc5::RC5::encrypt_block,rc5::RC5::decrypt_block timeout=300 note="RC5-32/12/1"
+// @ob name=b1_32_12_1_rt2 props=C01 kind=contract fn=rc5::RC5::encrypt_block,rc5::RC5::decrypt_block timeout=300 note="RC5-32/12/1"
+// @ob name=b1_32_12_1_api_enc props=C10,C20 kind=contract fn=rc5::RC5::new,rc5::RC5::encrypt_block timeout=300 note="RC5-32/12/1"
+// @ob name=b1_32_12_1_api_dec props=C10,C20 kind=contract fn=rc5::RC5::new,rc5::RC5::decrypt_block timeout=300 note="RC5-32/12/1"
+rc5_inst!(u32, U12, U1, m=w32, u=4, t=26, c=1, b=1, unw=80;
+    b1_32_12_1_ks, b1_32_12_1_enc, b1_32_12_1_dec, b1_32_12_1_rt1, b1_32_12_1_rt2, b1_32_12_1_api_enc, b1_32_12_1_api_dec);
 // RC5-32/12/3: RC5<u32, U12, U3>  (t = 26, c = 1)
 // @ob name=b3_32_12_3_ks props=C10,C20 kind=contract fn=rc5::RC5::substitute_key,rc5::RC5::key_into_words,rc5::RC5::initialize_expanded_key_table,rc5::RC5::mix_in timeout=300 note="RC5-32/12/3"
 // @ob name=b3_32_12_3_enc props=C10,C20 kind=contract fn=rc5::RC5::encrypt_block,rc5::RC5::words_from_block,rc5::RC5::block_from_words timeout=300 note="RC5-32/12/3"
 // @ob name=b3_32_12_3_dec props=C10,C20 kind=contract fn=rc5::RC5::decrypt_block,rc5::RC5::words_from_block,rc5::RC5::block_from_words timeout=300 note="RC5-32/12/3"
-// @ob name=b3_32_12_3_rt props=C01 kind=contract fn=rc5::RC5::encrypt_block,rc5::RC5::decrypt_block timeout=300 note="RC5-32/12/3"
-// @ob name=b3_32_12_3_api props=C10,C20 kind=contract fn=rc5::RC5::new,rc5::RC5::encrypt_block,rc5::RC5::decrypt_block timeout=600 note="RC5-32/12/3"
-rc5_inst!(u32, U12, U3, w=32, u=4, t=26, c=1, b=3, unw=80; b3_32_12_3_ks, b3_32_12_3_enc, b3_32_12_3_dec, b3_32_12_3_rt, b3_32_12_3_api);
+// @ob name=b3_32_12_3_rt1 props=C01 kind=contract fn=rc5::RC5::encrypt_block,rc5::RC5::decrypt_block timeout=300 note="RC5-32/12/3"
+// @ob name=b3_32_12_3_rt2 props=C01 kind=contract fn=rc5::RC5::encrypt_block,rc5::RC5::decrypt_block timeout=300 note="RC5-32/12/3"
+// @ob name=b3_32_12_3_api_enc props=C10,C20 kind=contract fn=rc5::RC5::new,rc5::RC5::encrypt_block timeout=300 note="RC5-32/12/3"
+// @ob name=b3_32_12_3_api_dec props=C10,C20 kind=contract fn=rc5::RC5::new,rc5::RC5::decrypt_block timeout=300 note="RC5-32/12/3"
+rc5_inst!(u32, U12, U3, m=w32, u=4, t=26, c=1, b=3, unw=80;
+    b3_32_12_3_ks, b3_32_12_3_enc, b3_32_12_3_dec, b3_32_12_3_rt1, b3_32_12_3_rt2, b3_32_12_3_api_enc, b3_32_12_3_api_dec);
 // RC5-32/12/7: RC5<u32, U12, U7>  (t = 26, c = 2)
 // @ob name=b7_32_12_7_ks props=C10,C20 kind=contract fn=rc5::RC5::substitute_key,rc5::RC5::key_into_words,rc5::RC5::initialize_expanded_key_table,rc5::RC5::mix_in timeout=300 note="RC5-32/12/7"
 // @ob name=b7_32_12_7_enc props=C10,C20 kind=contract fn=rc5::RC5::encrypt_block,rc5::RC5::words_from_block,rc5::RC5::block_from_words timeout=300 note="RC5-32/12/7"
 // @ob name=b7_32_12_7_dec props=C10,C20 kind=contract fn=rc5::RC5::decrypt_block,rc5::RC5::words_from_block,rc5::RC5::block_from_words timeout=300 note="RC5-32/12/7"
-// @ob name=b7_32_12_7_rt props=C01 kind=contract fn=rc5::RC5::encrypt_block,rc5::RC5::decrypt_block timeout=300 note="RC5-32/12/7"
-// @ob name=b7_32_12_7_api props=C10,C20 kind=contract fn=rc5::RC5::new,rc5::RC5::encrypt_block,rc5::RC5::decrypt_block timeout=600 note="RC5-32/12/7"
-rc5_inst!(u32, U12, U7, w=32, u=4, t=26, c=2, b=7, unw=80; b7_32_12_7_ks, b7_32_12_7_enc, b7_32_12_7_dec, b7_32_12_7_rt, b7_32_12_7_api);
+// @ob name=b7_32_12_7_rt1 props=C01 kind=contract fn=rc5::RC5::encrypt_block,rc5::RC5::decrypt_block timeout=300 note="RC5-32/12/7"
+// @ob name=b7_32_12_7_rt2 props=C01 kind=contract fn=rc5::RC5::encrypt_block,rc5::RC5::decrypt_block timeout=300 note="RC5-32/12/7"
+// @ob name=b7_32_12_7_api_enc props=C10,C20 kind=contract fn=rc5::RC5::new,rc5::RC5::encrypt_block timeout=300 note="RC5-32/12/7"
+// @ob name=b7_32_12_7_api_dec props=C10,C20 kind=contract fn=rc5::RC5::new,rc5::RC5::decrypt_block timeout=300 note="RC5-32/12/7"
+rc5_inst!(u32, U12, U7, m=w32, u=4, t=26, c=2, b=7, unw=80;
+    b7_32_12_7_ks, b7_32_12_7_enc, b7_32_12_7_dec, b7_32_12_7_rt1, b7_32_12_7_rt2, b7_32_12_7_api_enc, b7_32_12_7_api_dec);
 // RC5-32/12/255: RC5<u32, U12, U255>  (t = 26, c = 64)
 // @ob name=b255_32_12_255_ks props=C10,C20 kind=contract fn=rc5::RC5::substitute_key,rc5::RC5::key_into_words,rc5::RC5::initialize_expanded_key_table,rc5::RC5::mix_in timeout=300 note="RC5-32/12/255"
 // @ob name=b255_32_12_255_enc props=C10,C20 kind=contract fn=rc5::RC5::encrypt_block,rc5::RC5::words_from_block,rc5::RC5::block_from_words timeout=300 note="RC5-32/12/255"
 // @ob name=b255_32_12_255_dec props=C10,C20 kind=contract fn=rc5::RC5::decrypt_block,rc5::RC5::words_from_block,rc5::RC5::block_from_words timeout=300 note="RC5-32/12/255"
-// @ob name=b255_32_12_255_rt props=C01 kind=contract fn=rc5::RC5::encrypt_block,rc5::RC5::decrypt_block timeout=300 note="RC5-32/12/255"
-// @ob name=b255_32_12_255_api props=C10,C20 kind=contract fn=rc5::RC5::new,rc5::RC5::encrypt_block,rc5::RC5::decrypt_block timeout=600 note="RC5-32/12/255"
-rc5_inst!(u32, U12, U255, w=32, u=4, t=26, c=64, b=255, unw=257; b255_32_12_255_ks, b255_32_12_255_enc, b255_32_12_255_dec, b255_32_12_255_rt, b255_32_12_255_api);
+// @ob name=b255_32_12_255_rt1 props=C01 kind=contract fn=rc5::RC5::encrypt_block,rc5::RC5::decrypt_block timeout=300 note="RC5-32/12/255"
+// @ob name=b255_32_12_255_rt2 props=C01 kind=contract fn=rc5::RC5::encrypt_block,rc5::RC5::decrypt_block timeout=300 note="RC5-32/12/255"
+// @ob name=b255_32_12_255_api_enc props=C10,C20 kind=contract fn=rc5::RC5::new,rc5::RC5::encrypt_block timeout=300 note="RC5-32/12/255"
+// @ob name=b255_32_12_255_api_dec props=C10,C20 kind=contract fn=rc5::RC5::new,rc5::RC5::decrypt_block timeout=300 note="RC5-32/12/255"
+rc5_inst!(u32, U12, U255, m=w32, u=4, t=26, c=64, b=255, unw=257;
+    b255_32_12_255_ks, b255_32_12_255_enc, b255_32_12_255_dec, b255_32_12_255_rt1, b255_32_12_255_rt2, b255_32_12_255_api_enc, b255_32_12_255_api_dec);
 // RC5-16/12/3: RC5<u16, U12, U3>  (t = 26, c = 2)
 // @ob name=n16_12_3_ks props=C10,C20 kind=contract fn=rc5::RC5::substitute_key,rc5::RC5::key_into_words,rc5::RC5::initialize_expanded_key_table,rc5::RC5::mix_in timeout=300 note="RC5-16/12/3"
 // @ob name=n16_12_3_enc props=C10,C20 kind=contract fn=rc5::RC5::encrypt_block,rc5::RC5::words_from_block,rc5::RC5::block_from_words timeout=300 note="RC5-16/12/3"
 // @ob name=n16_12_3_dec props=C10,C20 kind=contract fn=rc5::RC5::decrypt_block,rc5::RC5::words_from_block,rc5::RC5::block_from_words timeout=300 note="RC5-16/12/3"
-// @ob name=n16_12_3_rt props=C01 kind=contract fn=rc5::RC5::encrypt_block,rc5::RC5::decrypt_block timeout=300 note="RC5-16/12/3"
-// @ob name=n16_12_3_api props=C10,C20 kind=contract fn=rc5::RC5::new,rc5::RC5::encrypt_block,rc5::RC5::decrypt_block timeout=600 note="RC5-16/12/3"
-rc5_inst!(u16, U12, U3, w=16, u=2, t=26, c=2, b=3, unw=80; n16_12_3_ks, n16_12_3_enc, n16_12_3_dec, n16_12_3_rt, n16_12_3_api);
+// @ob name=n16_12_3_rt1 props=C01 kind=contract fn=rc5::RC5::encrypt_block,rc5::RC5::decrypt_block timeout=300 note="RC5-16/12/3"
+// @ob name=n16_12_3_rt2 props=C01 kind=contract fn=rc5::RC5::encrypt_block,rc5::RC5::decrypt_block timeout=300 note="RC5-16/12/3"
+// @ob name=n16_12_3_api_enc props=C10,C20 kind=contract fn=rc5::RC5::new,rc5::RC5::encrypt_block timeout=300 note="RC5-16/12/3"
+// @ob name=n16_12_3_api_dec props=C10,C20 kind=contract fn=rc5::RC5::new,rc5::RC5::decrypt_block timeout=300 note="RC5-16/12/3"
+rc5_inst!(u16, U12, U3, m=w16, u=2, t=26, c=2, b=3, unw=80;
+    n16_12_3_ks, n16_12_3_enc, n16_12_3_dec, n16_12_3_rt1, n16_12_3_rt2, n16_12_3_api_enc, n16_12_3_api_dec);
 // RC5-64/12/9: RC5<u64, U12, U9>  (t = 26, c = 2)
 // @ob name=n64_12_9_ks props=C10,C20 kind=contract fn=rc5::RC5::substitute_key,rc5::RC5::key_into_words,rc5::RC5::initialize_expanded_key_table,rc5::RC5::mix_in timeout=300 note="RC5-64/12/9"
 // @ob name=n64_12_9_enc props=C10,C20 kind=contract fn=rc5::RC5::encrypt_block,rc5::RC5::words_from_block,rc5::RC5::block_from_words timeout=300 note="RC5-64/12/9"
 // @ob name=n64_12_9_dec props=C10,C20 kind=contract fn=rc5::RC5::decrypt_block,rc5::RC5::words_from_block,rc5::RC5::block_from_words timeout=300 note="RC5-64/12/9"
-// @ob name=n64_12_9_rt props=C01 kind=contract fn=rc5::RC5::encrypt_block,rc5::RC5::decrypt_block timeout=300 note="RC5-64/12/9"
-// @ob name=n64_12_9_api props=C10,C20 kind=contract fn=rc5::RC5::new,rc5::RC5::encrypt_block,rc5::RC5::decrypt_block timeout=600 note="RC5-64/12/9"
-rc5_inst!(u64, U12, U9, w=64, u=8, t=26, c=2, b=9, unw=80; n64_12_9_ks, n64_12_9_enc, n64_12_9_dec, n64_12_9_rt, n64_12_9_api);
+// @ob name=n64_12_9_rt1 props=C01 kind=contract fn=rc5::RC5::encrypt_block,rc5::RC5::decrypt_block timeout=300 note="RC5-64/12/9"
+// @ob name=n64_12_9_rt2 props=C01 kind=contract fn=rc5::RC5::encrypt_block,rc5::RC5::decrypt_block timeout=300 note="RC5-64/12/9"
+// @ob name=n64_12_9_api_enc props=C10,C20 kind=contract fn=rc5::RC5::new,rc5::RC5::encrypt_block timeout=300 note="RC5-64/12/9"
+// @ob name=n64_12_9_api_dec props=C10,C20 kind=contract fn=rc5::RC5::new,rc5::RC5::decrypt_block timeout=300 note="RC5-64/12/9"
+rc5_inst!(u64, U12, U9, m=w64, u=8, t=26, c=2, b=9, unw=80;
+    n64_12_9_ks, n64_12_9_enc, n64_12_9_dec, n64_12_9_rt1, n64_12_9_rt2, n64_12_9_api_enc, n64_12_9_api_dec);
 // RC5-128/12/17: RC5<u128, U12, U17>  (t = 26, c = 2)
 // @ob name=n128_12_17_ks props=C10,C20 kind=contract fn=rc5::RC5::substitute_key,rc5::RC5::key_into_words,rc5::RC5::initialize_expanded_key_table,rc5::RC5::mix_in timeout=300 note="RC5-128/12/17"
 // @ob name=n128_12_17_enc props=C10,C20 kind=contract fn=rc5::RC5::encrypt_block,rc5::RC5::words_from_block,rc5::RC5::block_from_words timeout=300 note="RC5-128/12/17"
 // @ob name=n128_12_17_dec props=C10,C20 kind=contract fn=rc5::RC5::decrypt_block,rc5::RC5::words_from_block,rc5::RC5::block_from_words timeout=300 note="RC5-128/12/17"
-// @ob name=n128_12_17_rt props=C01 kind=contract fn=rc5::RC5::encrypt_block,rc5::RC5::decrypt_block timeout=300 note="RC5-128/12/17"
-// @ob name=n128_12_17_api props=C10,C20 kind=contract fn=rc5::RC5::new,rc5::RC5::encrypt_block,rc5::RC5::decrypt_block timeout=600 note="RC5-128/12/17"
-rc5_inst!(u128, U12, U17, w=128, u=16, t=26, c=2, b=17, unw=80; n128_12_17_ks, n128_12_17_enc, n128_12_17_dec, n128_12_17_rt, n128_12_17_api);
+// @ob name=n128_12_17_rt1 props=C01 kind=contract fn=rc5::RC5::encrypt_block,rc5::RC5::decrypt_block timeout=300 note="RC5-128/12/17"
+// @ob name=n128_12_17_rt2 props=C01 kind=contract fn=rc5::RC5::encrypt_block,rc5::RC5::decrypt_block timeout=300 note="RC5-128/12/17"
+// @ob name=n128_12_17_api_enc props=C10,C20 kind=contract fn=rc5::RC5::new,rc5::RC5::encrypt_block timeout=300 note="RC5-128/12/17"
+// @ob name=n128_12_17_api_dec props=C10,C20 kind=contract fn=rc5::RC5::new,rc5::RC5::decrypt_block timeout=300 note="RC5-128/12/17"
+rc5_inst!(u128, U12, U17, m=w128, u=16, t=26, c=2, b=17, unw=80;
+    n128_12_17_ks, n128_12_17_enc, n128_12_17_dec, n128_12_17_rt1, n128_12_17_rt2, n128_12_17_api_enc, n128_12_17_api_dec);
 // RC5-8/12/255: RC5<u8, U12, U255>  (t = 26, c = 255)
 // @ob name=b255_8_12_255_ks props=C10,C20 kind=contract fn=rc5::RC5::substitute_key,rc5::RC5::key_into_words,rc5::RC5::initialize_expanded_key_table,rc5::RC5::mix_in timeout=300 note="RC5-8/12/255"
 // @ob name=b255_8_12_255_enc props=C10,C20 kind=contract fn=rc5::RC5::encrypt_block,rc5::RC5::words_from_block,rc5::RC5::block_from_words timeout=300 note="RC5-8/12/255"
 // @ob name=b255_8_12_255_dec props=C10,C20 kind=contract fn=rc5::RC5::decrypt_block,rc5::RC5::words_from_block,rc5::RC5::block_from_words timeout=300 note="RC5-8/12/255"
-// @ob name=b255_8_12_255_rt props=C01 kind=contract fn=rc5::RC5::encrypt_block,rc5::RC5::decrypt_block timeout=300 note="RC5-8/12/255"
-// @ob name=b255_8_12_255_api props=C10,C20 kind=contract fn=rc5::RC5::new,rc5::RC5::encrypt_block,rc5::RC5::decrypt_block timeout=600 note="RC5-8/12/255"
-rc5_inst!(u8, U12, U255, w=8, u=1, t=26, c=255, b=255, unw=767; b255_8_12_255_ks, b255_8_12_255_enc, b255_8_12_255_dec, b255_8_12_255_rt, b255_8_12_255_api);
+// @ob name=b255_8_12_255_rt1 props=C01 kind=contract fn=rc5::RC5::encrypt_block,rc5::RC5::decrypt_block timeout=300 note="RC5-8/12/255"
+// @ob name=b255_8_12_255_rt2 props=C01 kind=contract fn=rc5::RC5::encrypt_block,rc5::RC5::decrypt_block timeout=300 note="RC5-8/12/255"
+// @ob name=b255_8_12_255_api_enc props=C10,C20 kind=contract fn=rc5::RC5::new,rc5::RC5::encrypt_block timeout=300 note="RC5-8/12/255"
+// @ob name=b255_8_12_255_api_dec props=C10,C20 kind=contract fn=rc5::RC5::new,rc5::RC5::decrypt_block timeout=300 note="RC5-8/12/255"
+rc5_inst!(u8, U12, U255, m=w8, u=1, t=26, c=255, b=255, unw=767;
+    b255_8_12_255_ks, b255_8_12_255_enc, b255_8_12_255_dec, b255_8_12_255_rt1, b255_8_12_255_rt2, b255_8_12_255_api_enc, b255_8_12_255_api_dec);
